@@ -263,10 +263,14 @@ def rebuildTx (c : Cfg) (t : Tx) : Except Err Tx :=
   | .error e => .error e
   | .ok t1 => rebuildData c (kvList t1.kv c.dataPrefix) t1
 
+/-- `BeginTx`: a private copy of the committed bucket. -/
+def beginTx (kv : KV) (fault : Fault) : Tx :=
+  { kv := kv, writes := 0, failAt := match fault with | .write n => some n | _ => none }
+
 /-- `DoUpdate` over Bolt: the function runs on a private copy; the copy replaces the committed state iff the
 function returned nil and `Commit` succeeded. Returns the committed state and the error (if any). -/
 def update (kv : KV) (fault : Fault) (f : Tx → Except Err Tx) : KV × Option Err :=
-  match f { kv := kv, writes := 0, failAt := match fault with | .write n => some n | _ => none } with
+  match f (beginTx kv fault) with
   | .error e => (kv, some e)
   | .ok t => if fault = .commit then (kv, some .io) else (t.kv, none)
 
